@@ -235,17 +235,24 @@ def run_corpus(ctx, spec):
 
 
 def replay(ctx, spec, rp):
-    f = rp.get("failure") or {}
-    case = None
-    if isinstance(f.get("input"), dict):
-        case = f["input"].get("case")
-    elif isinstance(f.get("input"), str):
-        case = f["input"]
-    if case is None and rp.get("tie_failures"):
-        case = rp["tie_failures"][0].get("case")
-    if case and "corpus" in spec:
-        spec["corpus"](ctx, [case])
-    else:
+    """re-run the recorded failing case(s): build-like cases go through the property's corpus function (correspondence +
+    oracles); any other stream case is re-run through both executables (correspondence); without a case line the whole
+    exploration is repeated"""
+    cases = []
+    for f in [rp.get("failure") or {}] + list(rp.get("all_failures") or []) + list(rp.get("tie_failures") or []):
+        inp = f.get("input")
+        c = inp.get("case") if isinstance(inp, dict) else inp if isinstance(inp, str) else f.get("case")
+        if c and c not in cases and not c.startswith("vm_compute"):
+            cases.append(c)
+    build_like = [c for c in cases if c.split()[0] in ("build", "sel", "cands")]
+    other = [c for c in cases if c not in build_like]
+    if build_like and "corpus" in spec:
+        spec["corpus"](ctx, [c.replace("sel ", "build ", 1).replace("cands ", "build ", 1) for c in build_like])
+    if other:
+        impl, model = ctx.correspond("replay", other)
+        for c, a, b in zip(other, impl, model):
+            log("replay %s\n  implementation: %s\n  model:          %s" % (c[:200], a[:200], b[:200]))
+    if not cases or (build_like and "corpus" not in spec):
         spec["run"](ctx)
 
 
